@@ -261,7 +261,7 @@ impl SassCalculation {
     #[allow(clippy::needless_range_loop)]
     fn verify_compatible_numbers(
         args: &[CalculationArg],
-        options: &Options,
+        _options: &Options,
         span: Span,
     ) -> SassResult<()> {
         for arg in args {
@@ -306,8 +306,8 @@ impl SassCalculation {
                 return Err((
                     format!(
                         "{} and {} are incompatible.",
-                        inspect_number(number1, options, span)?,
-                        inspect_number(number2, options, span)?
+                        inspect_number(number1, &Options::default(), span)?,
+                        inspect_number(number2, &Options::default(), span)?
                     ),
                     span,
                 )
